@@ -112,13 +112,38 @@ def cwd(interp):
 
 
 def _strictly_below(interp, e, s):
-    """bool / SBool: entry e lies strictly below the directory s"""
+    """bool / SBool: entry e lies strictly below the directory s (as strings: e starts with s + '/'; every
+    absolute name but '/' lies below '/', every relative name but '.' below '.')"""
     from . import strings
-    prefix = strings.concat(interp, s, '/')
-    if isinstance(e, str) and isinstance(prefix, str):
-        return e.startswith(prefix)
-    return strings.call_method(interp, e if isinstance(e, SStr) else SStr(z3.StringVal(e)),
-                               'startswith', [prefix], {})
+
+    def starts(x, prefix):
+        if isinstance(x, str) and isinstance(prefix, str):
+            return x.startswith(prefix)
+        return strings.call_method(interp, x if isinstance(x, SStr) else SStr(z3.StringVal(x)),
+                                   'startswith', [prefix], {})
+
+    def and_(a, b):
+        if a is False or b is False:
+            return False
+        if a is True:
+            return b
+        if b is True:
+            return a
+        return wrap(z3.And(to_z3(a), to_z3(b)))
+
+    def ite(c, a, b):
+        if c is True:
+            return a
+        if c is False:
+            return b
+        return wrap(z3.If(to_z3(c), to_z3(a), to_z3(b)))
+
+    general = starts(e, strings.concat(interp, s, '/'))
+    is_root = interp.eq(s, '/')
+    is_dot = interp.eq(s, '.')
+    under_root = and_(starts(e, '/'), interp.not_(interp.eq(e, '/')))
+    under_dot = and_(interp.not_(starts(e, '/')), interp.not_(interp.eq(e, '.')))
+    return ite(is_root, under_root, ite(is_dot, under_dot, general))
 
 
 def _below_or_same(interp, e, s):
@@ -186,6 +211,7 @@ def _mkdir(interp, path, parents, exist_ok):
         _mkdir(interp, parent, True, True)
     interp.st.emit('mkdir', s)
     fs(interp)['dirs'].append(s)
+    fs(interp).setdefault('new', []).append(s)
 
 
 class FileI(Interface):
@@ -257,6 +283,11 @@ def m_fs_resolve(interp, args, kwargs):
     st = interp.st
     st.assume(interp.not_(_strictly_below(interp, s, r)))
     st.assume(interp.not_(_strictly_below(interp, r, s)))
+    # the result is absolute; it is '/' only for the root directory, which is not a directory created here
+    st.assume(interp.call(interp.getattr(r, 'startswith'), ['/'], {}))
+    if interp.branch(_member(interp, s, f.setdefault('new', []))):
+        st.assume(interp.not_(interp.eq(r, '/')))
+        f['new'].append(r)
     for e in f['dirs'] + f['files']:
         st.assume(_implies(interp, _below_or_same(interp, e, r), _below_or_same(interp, e, s)))
     if interp.branch(_member(interp, s, f['dirs'])):
@@ -335,23 +366,44 @@ def m_mkdtemp(interp, args, kwargs):
     # a new directory: no known entry is it or lies below it
     for e in f['dirs'] + f['files']:
         interp.st.assume(interp.not_(_below_or_same(interp, e, d)))
+    # ... and it is neither the root nor the current directory
+    interp.st.assume(interp.not_(interp.eq(d, '/')))
+    interp.st.assume(interp.not_(interp.eq(d, '.')))
     f['dirs'].append(d)
+    f.setdefault('new', []).append(d)
     interp.st.emit('mkdtemp', d, prefix)
     return d
 
 
 # ============================================================================ cross-check against CPython
 
-def crosscheck(names, bases=('/tmp/exactly-x1', 'rel/dir', '/a', 'b')):
-    """The join of the model (string concatenation) against pathlib, on the given concrete names.
+def crosscheck(names, bases=('/tmp/exactly-x1', 'rel/dir', '/a', 'b', '.', '/')):
+    """The join / parent of the model against pathlib, on the given concrete names.
     Returns the list of disagreements [(base, name, pathlib result, model result)]."""
     bad = []
+
+    def join(b, n):
+        if n.startswith('/'):
+            return n
+        if b == '.':
+            return n
+        if b == '/':
+            return '/' + n
+        return b + '/' + n
+
+    def parent(s):
+        head, sep, tail = s.rpartition('/')
+        return '.' if sep == '' else ('/' if head == '' else head)
+
     for b in bases:
         if str(pathlib.PurePosixPath(b)) != b:
             bad.append((b, None, str(pathlib.PurePosixPath(b)), b))
         for n in names:
             real = str(pathlib.PurePosixPath(b) / n)
-            model = n if n.startswith('/') else b + '/' + n
-            if real != model:
-                bad.append((b, n, real, model))
+            if real != join(b, n):
+                bad.append((b, n, real, join(b, n)))
+            if b not in ('.', '/') and str(pathlib.PurePosixPath(real).parent) != parent(real):
+                bad.append((real, 'parent', str(pathlib.PurePosixPath(real).parent), parent(real)))
+        if b not in ('.', '/') and str(pathlib.PurePosixPath(b).parent) != parent(b):
+            bad.append((b, 'parent', str(pathlib.PurePosixPath(b).parent), parent(b)))
     return bad
